@@ -38,7 +38,7 @@ struct Shared {
     events: VecDeque<TransportEvent>,
     calls: Vec<(String, ConnectionId, Vec<Multiaddr>)>,
     accept_fail: bool,
-    accepts: HashMap<ConnectionId, oneshot::Sender<crate::Result<()>>>,
+    accepts: HashMap<ConnectionId, VecDeque<oneshot::Sender<crate::Result<()>>>>,
 }
 
 struct Scripted(Arc<Mutex<Shared>>);
@@ -74,7 +74,7 @@ impl Transport for Scripted {
             return Err(Error::ConnectionDoesntExist(id));
         }
         let (tx, rx) = oneshot::channel();
-        shared.accepts.insert(id, tx);
+        shared.accepts.entry(id).or_default().push_back(tx);
         Ok(Box::pin(async move { rx.await.unwrap_or(Err(Error::EssentialTaskClosed)) }))
     }
 
@@ -410,6 +410,7 @@ impl ManagerBox {
 impl VerifBox for ManagerBox {
     fn step(&mut self, line: &str) -> String {
         let line = line.split(" -> ").next().unwrap_or(line);
+        let line = line.trim_end_matches(" !flush");
         let t: Vec<&str> = line.split_whitespace().collect();
         let limit = |s: &str| -> Option<Option<usize>> {
             if s == "none" {
@@ -521,7 +522,8 @@ impl VerifBox for ManagerBox {
             }
             ["accepted", conn, how] => {
                 let id = self.conn_of(conn);
-                let sender = self.shared.lock().unwrap().accepts.remove(&id);
+                let sender =
+                    self.shared.lock().unwrap().accepts.get_mut(&id).and_then(|queue| queue.pop_front());
                 if let Some(sender) = sender {
                     let _ = sender.send(if *how == "ok" { Ok(()) } else { Err(Error::EssentialTaskClosed) });
                 }
